@@ -114,7 +114,18 @@ impl<'a> Gen<'a> {
                     *budget -= 2 * n as i64;
                     let body = self.block(&mut inner, depth + 1, budget);
                     if var.is_some() && n >= 1 && !scope.contains(&name) { scope.push(name.clone()); }
-                    out.push(S::Count { n, spell: self.rng.below(3) as u8, var, body });
+                    if self.rng.chance(1, 4) {
+                        // the count is read from a variable that the body itself changes: the count is
+                        // evaluated once, on entry, so the loop still makes exactly n passes
+                        let ctr = format!("k{depth}");
+                        out.push(S::Init(ctr.clone(), n as f32));
+                        if !scope.contains(&ctr) { scope.push(ctr.clone()); }
+                        let mut body = body;
+                        body.push(S::Incr(ctr.clone(), *self.rng.pick(&[-1.0f32, 1.0, 2.0])));
+                        out.push(S::Count { n, spell: if self.rng.chance(1, 2) { 3 } else { 4 }, var, body });
+                    } else {
+                        out.push(S::Count { n, spell: self.rng.below(3) as u8, var, body });
+                    }
                 }
                 5 => {
                     // while over a counter
@@ -196,7 +207,10 @@ fn to_p(ss: &[S]) -> Vec<X> {
             S::Init(n, v) => out.push(var_el(&[(n, &fs(*v))])),
             S::Incr(n, st) => out.push(var_el(&[(n, &format!("{{{{${n} + {}}}}}", fs(*st)))])),
             S::Count { n, spell, var, body } => {
-                let cnt = match spell { 0 => n.to_string(), 1 => format!("{{{{{} + {}}}}}", n / 2, n - n / 2), _ => format!("{{{{{n}}}}}") };
+                // spellings 3 / 4: the counter variable initialised just before the loop (named by the last
+                // statement of the body, which updates it)
+                let ctr = match body.last() { Some(S::Incr(c, _)) => c.clone(), _ => String::new() };
+                let cnt = match spell { 0 => n.to_string(), 1 => format!("{{{{{} + {}}}}}", n / 2, n - n / 2), 3 => format!("${ctr}"), 4 => format!("{{{{${ctr}}}}}"), _ => format!("{{{{{n}}}}}") };
                 let mut attrs: Vec<(String, String)> = vec![("count".into(), cnt)];
                 if let Some((name, start, step)) = var {
                     attrs.push(("loop-var".into(), name.clone()));
